@@ -16,6 +16,7 @@
 #define DECL(B)                                                                \
     void bs_set_##B(void *, size_t, size_t, uint64_t);                         \
     uint64_t bs_get_##B(const void *, size_t, size_t);                         \
+    uint64_t bs_rmw_##B(void *, size_t, size_t, uint64_t, uint64_t *);         \
     int64_t bs_prep_##B(int64_t, unsigned);                                    \
     int64_t bs_rest_##B(int64_t, unsigned);                                    \
     int64_t bs_signed_rt_##B(int64_t, unsigned, size_t);
@@ -54,6 +55,18 @@ static void put_words(const char *key, const uint8_t *mem, unsigned W, size_t nw
     fputc(']', tr_f);
 }
 
+static volatile uint64_t g_rmw_sink;
+static uint64_t do_rmw(unsigned W, void *dst, size_t off, size_t w, uint64_t v) {
+    uint64_t prior = 0, after;
+    switch (W) {
+    case 64: after = bs_rmw_64(dst, off, w, v, &prior); break;
+    case 32: after = bs_rmw_32(dst, off, w, v, &prior); break;
+    case 16: after = bs_rmw_16(dst, off, w, v, &prior); break;
+    default: after = bs_rmw_8(dst, off, w, v, &prior); break;
+    }
+    g_rmw_sink ^= prior;
+    return after;
+}
 static void fill(uint8_t *mem, size_t n, int prior) {
     for (size_t i = 0; i < n; i++) {
         mem[i] = prior == 0 ? 0 : prior == 1 ? 0xFF : (uint8_t)rng_u64();
@@ -79,6 +92,26 @@ static void one_case(unsigned W, size_t off, size_t w, uint64_t val, int prior) 
         ev_int("width", (long long)w);
         ev_word("val", val);
         ev_int("fault", f ? f : gf);
+        put_words("pre", pre, W, nwords);
+        put_words("post", mem, W, nwords);
+        ev_word("got", got);
+        ev_end();
+    }
+    /* iso again, as a read-modify-write-verify inside one function */
+    {
+        size_t nwords = overlap + 2;
+        uint8_t mem[8 * 5], pre[8 * 5];
+        fill(mem, nwords * wb, prior);
+        memcpy(pre, mem, nwords * wb);
+        uint64_t got = 0;
+        int f = GUARDED(got = do_rmw(W, mem, W + off, w, val));
+        ev_begin("Bs");
+        ev_str("mode", "iso");
+        ev_int("word", W);
+        ev_int("off", (long long)(W + off));
+        ev_int("width", (long long)w);
+        ev_word("val", val);
+        ev_int("fault", f);
         put_words("pre", pre, W, nwords);
         put_words("post", mem, W, nwords);
         ev_word("got", got);
